@@ -499,7 +499,11 @@ theorem rloopWith_tri (run : St → Res) (hrun : Tri run) (runElse : Option (St 
     simp only
     show Lk k _ (match getVar s.c.vars name with | none => _ | some vv => _)
     cases getVar s.c.vars name with
-    | none => exact Or.inl rfl
+    | none =>
+      simp only
+      cases hel : runElse with
+      | none => exact Or.inl rfl
+      | some re => exact (helse re hel).lock k s h
     | some vv =>
       simp only
       have g := growL_of_frame (rloopLoop_frame run hrun.frame ls (loopItems vv sub) 0) s h
